@@ -21,10 +21,9 @@ PLANTED = [
     ("C08-cache-short", "C08", "setigen/voltage/polyphase_filterbank.py",
      "self.cache = x[-self.num_taps*self.num_branches:]", "self.cache = x[-self.num_taps*self.num_branches + self.num_branches:]",
      "a second cached chunk"),
-    ("C08-cache-before-concat", "C08", "setigen/voltage/polyphase_filterbank.py",
-     "                x = xp.concatenate([self.cache, x])\n            self.cache = x[-self.num_taps*self.num_branches:]",
-     "                old = self.cache\n                self.cache = x[-self.num_taps*self.num_branches:]\n                x = xp.concatenate([old, x])\n            else:\n                self.cache = x[-self.num_taps*self.num_branches:]",
-     "a chunk shorter than the tail after a longer one"),
+    ("C08-cache-long", "C08", "setigen/voltage/polyphase_filterbank.py",
+     "self.cache = x[-self.num_taps*self.num_branches:]", "self.cache = x[-self.num_taps*self.num_branches - self.num_branches:]",
+     "a second cached chunk (one spectrum repeated at the seam)"),
     ("C08-norm", "C08", "setigen/voltage/polyphase_filterbank.py", "axis=1)[:, 0:self.num_branches//2] / self.num_branches**0.5",
      "axis=1)[:, 0:self.num_branches//2] / self.num_branches", "any call"),
     ("C09-refresh-ge", "C09", "setigen/voltage/quantization.py", "if self.stats_calc_indices == self.stats_calc_period:",
@@ -45,8 +44,8 @@ PLANTED = [
      "a descending band with non-zero phase"),
     ("C15-cache-slice", "C15", "setigen/voltage/antenna.py", "antenna.bg_cache[0] = self.bg_x.v[bg_num_samples-antenna.delay:]",
      "antenna.bg_cache[0] = self.bg_x.v[num_samples-antenna.delay:]", "first request of an observation with a delayed antenna, then a second"),
-    ("C15-cache-not-cleared", "C15", "setigen/voltage/antenna.py", "            antenna.bg_cache = [None, None]\n            antenna.set_time(t)",
-     "            antenna.set_time(t)", "set_time after a request, with max_delay > 0"),
+    ("C15-settime-bg-y", "C15", "setigen/voltage/antenna.py", "        if self.num_pols == 2:\n            self.bg_y.set_time(t)\n        for antenna in self.antennas:",
+     "        for antenna in self.antennas:", "two polarisations, a chirp on the y background, set_time after a request"),
     ("C15-delay-sign", "C15", "setigen/voltage/antenna.py", "bg_x_v = self.bg_x.v[self.max_delay-antenna.delay:bg_num_samples-antenna.delay]",
      "bg_x_v = self.bg_x.v[antenna.delay:num_samples+antenna.delay]", "unequal delays"),
     ("C02-no-pfb-reset", "C02", "setigen/voltage/backend.py", "                self.filterbank[antenna][pol]._reset_cache()\n", "",
@@ -104,7 +103,8 @@ PLANTED = [
     ("C17-view", "C17", "setigen/frame.py", "                self.data = np.copy(data)", "                self.data = data", "mutating a slice"),
     ("C03-no-flip-save", "C03", "setigen/frame.py", "            self.waterfall.data = self.waterfall.data[:, :, ::-1]\n", "            pass\n", "a descending frame"),
     ("C03-foff-sign", "C03", "setigen/frame.py", "header_attr['foff'] = self.df * -1e-6", "header_attr['foff'] = self.df * 1e-6", "a descending frame"),
-    ("C03-skip-refresh", "C03", "setigen/frame.py", "            'nchans': self.fchans,\n", "", "a slice of a loaded frame"),
+    ("C03-load-no-flip", "C03", "setigen/frame.py", "            if not self.ascending:\n                self.data = self.data[:, ::-1]\n        else:",
+     "        else:", "loading a descending file"),
     ("C11-df-int", "C11", "setigen/frame.py", "self.chi2_df = 4 * round(self.df * self.dt)", "self.chi2_df = 4 * int(self.df * self.dt)", "df*dt = 1.5 or 2.5 .. with a large frame"),
     ("C11-always-reestimate", "C11", "setigen/frame.py", "        set_to_param = (self.noise_mean == self.noise_std == 0)\n        if set_to_param:\n            self.noise_mean, self.noise_std = x_mean, x_std\n        else:\n            self._update_noise_frame_stats()\n\n        return noise\n\n    def add_noise_from_obs",
      "        self._update_noise_frame_stats()\n\n        return noise\n\n    def add_noise_from_obs", "first noise on an empty frame"),
